@@ -7,6 +7,8 @@ import (
 	"encoding/json"
 	"fmt"
 
+	"strings"
+
 	"github.com/nspcc-dev/neo-go/pkg/core/block"
 	"github.com/nspcc-dev/neo-go/pkg/core/dao"
 	"github.com/nspcc-dev/neo-go/pkg/core/storage"
@@ -45,6 +47,19 @@ func mkViol(sig, detail string, c *codec, input []byte, extra map[string]any) vi
 
 func identSig(c *codec) string { return "identity-not-from-content:" + c.typ + ":" + c.entry }
 
+// sn is the codec name used in signatures: the "+sr" variants differ only in
+// a context flag, not in the code under test.
+func sn(c *codec) string { return strings.TrimSuffix(c.name, "+sr") }
+
+// decodeErrSig names a rejected well-formed encoding; a compressed P2P frame
+// that the node's own decoder refuses gets one signature wherever it shows.
+func decodeErrSig(c *codec, clause string, err string) string {
+	if strings.HasPrefix(err, "lz4:") {
+		return "p2p-compressed-frame-rejected:lz4-decoder"
+	}
+	return clause + ":" + sn(c) + ":decode-error"
+}
+
 // guard runs f and converts a panic into a violation.
 func guard(c *codec, stage string, input []byte, f func()) (v *viol) {
 	defer func() {
@@ -71,23 +86,23 @@ func checkAccepted(c *codec, input []byte, v any, canon bool) []viol {
 		return append(out, *p)
 	}
 	if err != nil {
-		return append(out, mkViol("canon:"+c.name+":reencode-error", fmt.Sprintf("%s accepted the input but the value does not re-encode: %v", c.entry, err), c, input, nil))
+		return append(out, mkViol("canon:"+sn(c)+":reencode-error", fmt.Sprintf("%s accepted the input but the value does not re-encode: %v", c.entry, err), c, input, nil))
 	}
 	var v2 any
 	if p := guard(c, "decoding of the re-encoding", e1, func() { v2, err = c.dec(e1) }); p != nil {
 		return append(out, *p)
 	}
 	if err != nil {
-		return append(out, mkViol("canon:"+c.name+":redecode-error", fmt.Sprintf("the re-encoding of an accepted value is rejected: %v", err), c, input, map[string]any{"reencoded_hex": hexCap(e1)}))
+		return append(out, mkViol("canon:"+sn(c)+":redecode-error", fmt.Sprintf("the re-encoding of an accepted value is rejected: %v", err), c, input, map[string]any{"reencoded_hex": hexCap(e1)}))
 	}
 	if !c.idempotentOnly {
 		if d := c.diff(v, v2); d != "" {
-			out = append(out, mkViol("canon:"+c.name+":value", "decode(encode(v)) differs from v at "+d, c, input, map[string]any{"reencoded_hex": hexCap(e1)}))
+			return append(out, mkViol("canon:"+sn(c)+":value", "decode(encode(v)) differs from v at "+d, c, input, map[string]any{"reencoded_hex": hexCap(e1)}))
 		}
 	}
 	id2 := c.ident(v2)
 	if id1 != id2 {
-		out = append(out, mkViol(identSig(c), fmt.Sprintf("the value decoded from the received bytes reports hash=%s size=%d txs=%s, the same content decoded from its own encoding reports hash=%s size=%d txs=%s (received %d bytes, canonical %d bytes)",
+		return append(out, mkViol(identSig(c), fmt.Sprintf("the value decoded from the received bytes reports hash=%s size=%d txs=%s, the same content decoded from its own encoding reports hash=%s size=%d txs=%s (received %d bytes, canonical %d bytes)",
 			id1.hash, id1.size, id1.subhash, id2.hash, id2.size, id2.subhash, len(input), len(e1)), c, input, map[string]any{"reencoded_hex": hexCap(e1)}))
 	}
 	var e2 []byte
@@ -95,7 +110,10 @@ func checkAccepted(c *codec, input []byte, v any, canon bool) []viol {
 		return append(out, *p)
 	}
 	if err != nil || !bytes.Equal(e1, e2) {
-		out = append(out, mkViol("canon:"+c.name+":encoding-not-fixpoint", fmt.Sprintf("encode(decode(encode(v))) != encode(v) (err=%v)", err), c, input, map[string]any{"reencoded_hex": hexCap(e1), "second_hex": hexCap(e2)}))
+		return append(out, mkViol("canon:"+sn(c)+":encoding-not-fixpoint", fmt.Sprintf("encode(decode(encode(v))) != encode(v) (err=%v)", err), c, input, map[string]any{"reencoded_hex": hexCap(e1), "second_hex": hexCap(e2)}))
+	}
+	if canon && !bytes.Equal(e1, input) {
+		return append(out, mkViol("roundtrip:"+sn(c)+":reencoding", "encode(decode(encode(v))) != encode(v)", c, input, map[string]any{"second_hex": hexCap(e1)}))
 	}
 	if c.post != nil {
 		var cb []byte
@@ -106,7 +124,7 @@ func checkAccepted(c *codec, input []byte, v any, canon bool) []viol {
 		if p := guard(c, "type-specific law", input, func() { d = c.post(v, cb) }); p != nil {
 			out = append(out, *p)
 		} else if d != "" {
-			out = append(out, mkViol("law:"+c.name+":"+firstWords(d, 4), d, c, input, nil))
+			out = append(out, mkViol("law:"+sn(c)+":"+firstWords(d, 4), d, c, input, nil))
 		}
 	}
 	return out
@@ -174,42 +192,38 @@ func checkGenerated(c *codec, stream uint64) (out []viol, shape string, enc []by
 		return append(out, *p), shape, nil
 	}
 	if err != nil {
-		return append(out, mkViol("roundtrip:"+c.name+":encode-error", "a well-formed value does not encode: "+err.Error(), c, nil, map[string]any{"shape": shape})), shape, nil
+		return append(out, mkViol("roundtrip:"+sn(c)+":encode-error", "a well-formed value does not encode: "+err.Error(), c, nil, map[string]any{"shape": shape})), shape, nil
 	}
 	var v2 any
 	if p := guard(c, "decoding", b, func() { v2, err = c.dec(b) }); p != nil {
 		return append(out, *p), shape, b
 	}
 	if err != nil {
-		return append(out, mkViol("roundtrip:"+c.name+":decode-error", "the encoding of a well-formed value is rejected: "+err.Error(), c, b, map[string]any{"shape": shape})), shape, b
+		return append(out, mkViol(decodeErrSig(c, "roundtrip", err.Error()), "the encoding of a well-formed value is rejected: "+err.Error(), c, b, map[string]any{"shape": shape})), shape, b
 	}
 	if !c.idempotentOnly {
 		var d string
 		if p := guard(c, "comparison", b, func() { d = c.diff(v0, v2) }); p != nil {
 			out = append(out, *p)
 		} else if d != "" {
-			out = append(out, mkViol("roundtrip:"+c.name+":value", "decode(encode(v)) differs from v at "+d, c, b, map[string]any{"shape": shape}))
+			out = append(out, mkViol("roundtrip:"+sn(c)+":value", "decode(encode(v)) differs from v at "+d, c, b, map[string]any{"shape": shape}))
 		}
 	}
 	id0, id2 := c.ident(v0), c.ident(v2)
 	if id0.hash != id2.hash || id0.subhash != id2.subhash {
-		out = append(out, mkViol("roundtrip:"+c.name+":hash", fmt.Sprintf("hash %s (constructed) vs %s (decoded); txs %s vs %s", id0.hash, id2.hash, id0.subhash, id2.subhash), c, b, map[string]any{"shape": shape}))
+		out = append(out, mkViol("roundtrip:"+sn(c)+":hash", fmt.Sprintf("hash %s (constructed) vs %s (decoded); txs %s vs %s", id0.hash, id2.hash, id0.subhash, id2.subhash), c, b, map[string]any{"shape": shape}))
 	}
 	if wl := wireLen(c, v2); wl >= 0 {
 		if id2.size != wl {
-			out = append(out, mkViol("size:"+c.name+":decoded-value", fmt.Sprintf("decoded value reports size %d, its binary encoding has %d bytes", id2.size, wl), c, b, map[string]any{"shape": shape}))
+			out = append(out, mkViol("size:"+c.typ, fmt.Sprintf("decoded value reports size %d, its binary encoding has %d bytes", id2.size, wl), c, b, map[string]any{"shape": shape}))
 		}
 		if id0.size != wl {
-			out = append(out, mkViol("size:"+c.name+":constructed-value", fmt.Sprintf("constructed value reports size %d, its binary encoding has %d bytes", id0.size, wl), c, b, map[string]any{"shape": shape}))
+			out = append(out, mkViol("size:"+c.typ, fmt.Sprintf("constructed value reports size %d, its binary encoding has %d bytes", id0.size, wl), c, b, map[string]any{"shape": shape}))
 		}
 	}
-	var b2 []byte
-	if p := guard(c, "re-encoding", b, func() { b2, err = c.enc(v2) }); p != nil {
-		out = append(out, *p)
-	} else if err != nil || !bytes.Equal(b, b2) {
-		out = append(out, mkViol("roundtrip:"+c.name+":reencoding", fmt.Sprintf("encode(decode(encode(v))) != encode(v) (err=%v)", err), c, b, map[string]any{"shape": shape, "second_hex": hexCap(b2)}))
+	if len(out) == 0 {
+		out = append(out, checkAccepted(c, b, v2, true)...)
 	}
-	out = append(out, checkAccepted(c, b, v2, true)...)
 	out = append(out, checkPaths(c, b)...)
 	return out, shape, b
 }
@@ -468,7 +482,10 @@ func checkPaths(c *codec, b []byte) []viol {
 		}
 		sig := "identity-not-from-content:" + typ + ":" + p.Path
 		detail := fmt.Sprintf("same %s bytes: %s gives hash=%s size=%d %s, %s gives hash=%s size=%d %s", typ, ref.Path, ref.Hash, ref.Size, ref.Sub, p.Path, p.Hash, p.Size, p.Sub)
-		if p.Err != "" {
+		if strings.HasPrefix(p.Err, "lz4:") {
+			sig = "p2p-compressed-frame-rejected:lz4-decoder"
+			detail = fmt.Sprintf("%s bytes accepted by %s, framed as a compressed P2P message with the library call the node's encoder uses, are rejected by Message.Decode: %s", typ, ref.Path, p.Err)
+		} else if p.Err != "" {
 			sig = "path-dependence:" + typ + ":" + p.Path + ":rejected"
 			detail = fmt.Sprintf("%s bytes accepted by %s are rejected through %s: %s", typ, ref.Path, p.Path, p.Err)
 		}
@@ -487,6 +504,8 @@ type primCase struct {
 // checkPrimitives: var-int and var-bytes round trip, and the size formula
 // (io.GetVarSize) against the length actually written, at and around every
 // boundary.
+const primSig = "varint-boundary:WriteVarUint-not-minimal-vs-GetVarSize"
+
 func checkPrimitives() (out []viol, cases int) {
 	c := &codec{name: "io.varint", entry: "BinReader.ReadVarUint", typ: "varint"}
 	vals := []uint64{}
@@ -506,11 +525,11 @@ func checkPrimitives() (out []viol, cases int) {
 		var canon wbuf
 		canon.varint(n)
 		if !bytes.Equal(canon.Bytes(), b) {
-			out = append(out, mkViol("canon:io.varint:writer-not-minimal", fmt.Sprintf("WriteVarUint(%d) writes %x; the minimal encoding (and the one io.GetVarSize assumes) is %x", n, b, canon.Bytes()), c, b, map[string]any{"value": n}))
+			out = append(out, mkViol(primSig, fmt.Sprintf("WriteVarUint(%d) writes %x; the minimal encoding (and the one io.GetVarSize assumes) is %x", n, b, canon.Bytes()), c, b, map[string]any{"value": n}))
 		}
 		if n <= 1<<31 {
 			if sz := io.GetVarSize(int(n)); sz != len(b) {
-				out = append(out, mkViol("size:io.GetVarSize:integer", fmt.Sprintf("io.GetVarSize(%d) = %d but WriteVarUint writes %d bytes (%x)", n, sz, len(b), b), c, b, map[string]any{"value": n}))
+				out = append(out, mkViol(primSig, fmt.Sprintf("io.GetVarSize(%d) = %d but WriteVarUint writes %d bytes (%x)", n, sz, len(b), b), c, b, map[string]any{"value": n}))
 			}
 		}
 	}
@@ -526,10 +545,10 @@ func checkPrimitives() (out []viol, cases int) {
 			out = append(out, mkViol("roundtrip:io.varbytes:value", fmt.Sprintf("WriteVarBytes of %d bytes does not read back (err=%v)", n, r.Err), c, nil, nil))
 		}
 		if sz := io.GetVarSize(data); sz != len(b) {
-			out = append(out, mkViol("size:io.GetVarSize:bytes", fmt.Sprintf("io.GetVarSize([%d]byte) = %d but WriteVarBytes writes %d bytes", n, sz, len(b)), c, nil, map[string]any{"length": n}))
+			out = append(out, mkViol(primSig, fmt.Sprintf("io.GetVarSize([%d]byte) = %d but WriteVarBytes writes %d bytes", n, sz, len(b)), c, nil, map[string]any{"length": n}))
 		}
 		if sz := io.GetVarSize(string(data)); sz != len(b) {
-			out = append(out, mkViol("size:io.GetVarSize:string", fmt.Sprintf("io.GetVarSize(string of %d) = %d but WriteString writes %d bytes", n, sz, len(b)), c, nil, map[string]any{"length": n}))
+			out = append(out, mkViol(primSig, fmt.Sprintf("io.GetVarSize(string of %d) = %d but WriteString writes %d bytes", n, sz, len(b)), c, nil, map[string]any{"length": n}))
 		}
 	}
 	// slices of serializable values: reported size against WriteArray
@@ -538,14 +557,14 @@ func checkPrimitives() (out []viol, cases int) {
 		hs := make([]util.Uint256, n)
 		w := io.NewBufBinWriter()
 		w.WriteArray(hs)
-		if sz := io.GetVarSize(hs); sz != len(w.Bytes()) {
-			out = append(out, mkViol("size:io.GetVarSize:slice-of-uint256", fmt.Sprintf("io.GetVarSize([]util.Uint256 of %d) = %d but WriteArray writes %d bytes", n, sz, len(w.Bytes())), c, nil, nil))
+		if sz, wl := io.GetVarSize(hs), len(w.Bytes()); sz != wl {
+			out = append(out, mkViol("size:io.GetVarSize:slice-of-non-pointer-serializable", fmt.Sprintf("io.GetVarSize([]util.Uint256 of %d) = %d but WriteArray writes %d bytes", n, sz, wl), c, nil, nil))
 		}
 		ws := make([]transaction.Witness, n)
 		w = io.NewBufBinWriter()
 		w.WriteArray(ws)
-		if sz := io.GetVarSize(ws); sz != len(w.Bytes()) {
-			out = append(out, mkViol("size:io.GetVarSize:slice-of-struct-values", fmt.Sprintf("io.GetVarSize([]transaction.Witness of %d) = %d but WriteArray writes %d bytes", n, sz, len(w.Bytes())), c, nil, nil))
+		if sz, wl := io.GetVarSize(ws), len(w.Bytes()); sz != wl {
+			out = append(out, mkViol("size:io.GetVarSize:slice-of-non-pointer-serializable", fmt.Sprintf("io.GetVarSize([]transaction.Witness of %d) = %d but WriteArray writes %d bytes", n, sz, wl), c, nil, nil))
 		}
 		ps := make([]*transaction.Witness, n)
 		for i := range ps {
@@ -553,8 +572,8 @@ func checkPrimitives() (out []viol, cases int) {
 		}
 		w = io.NewBufBinWriter()
 		w.WriteArray(ps)
-		if sz := io.GetVarSize(ps); sz != len(w.Bytes()) {
-			out = append(out, mkViol("size:io.GetVarSize:slice-of-pointers", fmt.Sprintf("io.GetVarSize([]*transaction.Witness of %d) = %d but WriteArray writes %d bytes", n, sz, len(w.Bytes())), c, nil, nil))
+		if sz, wl := io.GetVarSize(ps), len(w.Bytes()); sz != wl {
+			out = append(out, mkViol("size:io.GetVarSize:slice-of-pointers", fmt.Sprintf("io.GetVarSize([]*transaction.Witness of %d) = %d but WriteArray writes %d bytes", n, sz, wl), c, nil, nil))
 		}
 	}
 	return out, cases
